@@ -1,11 +1,14 @@
 """C18 — network construction and mutation keep the structure coherent.
 
-Three streams:
+Four streams:
   ops       random operation sequences on one SupplyChainNetwork (+ a pool of SupplyChainProduct objects); after EVERY
             operation the full structure and every derived view is (a) compared with the Gallina model Net/Graph.v +
             Net/Bom.v and (b) checked by an oracle that recomputes the views independently from the raw lists.
   builders  network_from_edges / single_stage / serial / owmr / mwor with all argument shapes; compared with
             Net/Builders.v and checked against the documented postconditions.
+  rebuild   serial / owmr / mwor called repeatedly with the same argument objects (Policy, DemandSource, DisruptionProcess) with
+            changes by the user in between; oracle only: every network built so far keeps the documented placement, policies
+            point to their own node, the caller's argument objects are left alone.
   levels    local <-> echelon base-stock conversions on random serial systems (made by serial_system() or reached through
             the mutators / network_from_edges, so that the storage order of the nodes is arbitrary); compared with
             Net/Levels.v (exact, dyadic inputs) and round-trip oracle.
@@ -23,7 +26,7 @@ RULE = ('ops: sequences of <= 30 operations (add_node, add_edge, add_edges_from_
         'None entries) x sizes <= 5 x labelling (default or random); attribute values include 0 and 0.0 (kept distinct from None), up to 4 further copied attributes per case (oracle only, incl. the holding_cost / lead_time alias keywords and round_to_int=False) and a systematic sweep placing exactly 0 / False at one node for every copied attribute x shape x builder. levels: serial systems of 1..7 nodes, random labelling, levels k/4, half of them made by serial_system() and half reached another way: '
         'nodes added in any order and linked afterwards (add_edge / add_edges_from_list in any order), grown from an inner node with add_successor / add_predecessor, '
         'a longer chain trimmed at its ends with remove_node, optionally re-indexed, or network_from_edges with the arcs in any order (so network.nodes is stored in any order relative to the chain); '
-        'dict keys in any order, sometimes a key that is not a node; both conversions are repeated on the same network and the argument dicts are checked to be unchanged. non-trivial = the network after the prefix has >= 2 nodes and >= 1 arc (ops), >= 2 nodes (builders, levels); '
+        'dict keys in any order, sometimes a key that is not a node; both conversions are repeated on the same network and the argument dicts are checked to be unchanged. rebuild (oracle only): serial_system / owmr_system / mwor_system called 2-3 times (same or different builder) with ONE set of argument objects (Policy, DemandSource, DisruptionProcess as singleton / list with or without node_order_in_lists / dict, with None entries; 1..4 nodes, random labels), the user changing the argument objects and/or the network just built between the builds; every network built so far is read after every build and at the end, and the argument objects of the caller before and after each call. non-trivial = the network after the prefix has >= 2 nodes and >= 1 arc (ops), >= 2 nodes (builders, levels, rebuild); '
         'distinct = distinct canonical structure (ops) / distinct argument tuple (builders, levels).')
 
 
@@ -321,6 +324,16 @@ def reach(adj, a):
     return seen
 
 
+def dummy_idx(i):
+    """documented index of the dummy product of node i"""
+    return -2 * i if i > 0 else -1000 - 2 * i
+
+
+def ext_idx(i):
+    """documented index of the external-supplier dummy product (raw material) of node i"""
+    return dummy_idx(i) - 1
+
+
 def oracle_ops(world, op):
     """returns list of (signature-suffix, what)"""
     from collections import Counter
@@ -371,6 +384,20 @@ def oracle_ops(world, op):
     for p in net._local_product_indices:
         if p not in net.product_indices: B('network-product-list', 'local product %r not in network.product_indices' % p)
     if len(set(net.product_indices)) != len(net.product_indices): B('network-product-dup', 'product_indices %r' % net.product_indices)
+    # external-supplier dummy products: the index is a documented function of the node index (dummy product index - 1), computed
+    # here from the node index alone (NOT read back from the node), so that a node that keeps the raw material of an index it
+    # had earlier (re-indexing) or shares one with another node is seen; every one is found by index and listed by the network
+    for n in net.nodes:
+        e = n._external_supplier_dummy_product; want = ext_idx(n.index)
+        if e is None or e.index != want:
+            B('external-supplier-product-index', 'node %d has external-supplier dummy product %r, documented %d (real products at the node: %r)' % (n.index, None if e is None else e.index, want, [p for p in n.product_indices if p >= 0]))
+        elif pbi.get(want) is not e or want not in net.product_indices:
+            B('external-supplier-product-lookup', 'external-supplier dummy product %d of node %d: products_by_index gives %r, network.product_indices %r' % (want, n.index, pbi.get(want), net.product_indices))
+    for k_, pr_ in pbi.items():
+        if pr_.index != k_: B('products_by_index-key', 'products_by_index[%r] has index %r' % (k_, pr_.index))
+    exp_np = set(net._local_product_indices) | {p for n in net.nodes for p in n.product_indices} | {ext_idx(n.index) for n in net.nodes}
+    if set(net.product_indices) != exp_np:
+        B('network-product-set', 'network.product_indices %r, products of the nodes + network-level products + external-supplier dummies give %r' % (sset(net.product_indices), sset(exp_np)))
     # 4. BOM views vs product BOMs
     if bad: return bad          # graph / index structure already incoherent
     def bomq(p1, p2):
@@ -380,7 +407,7 @@ def oracle_ops(world, op):
     for n in net.nodes:
         plist = sorted(set(P[n.index])) + ([None] if n.supply_type is not None else [])
         for pr in plist:
-            pp = prods[pr] if pr is not None else [n._external_supplier_dummy_product.index]
+            pp = prods[pr] if pr is not None else [ext_idx(n.index)]
             found = any(bomq(p1, p2) > 0 for p1 in prods[n.index] for p2 in pp)
             for p1 in prods[n.index]:
                 for p2 in pp:
@@ -407,7 +434,7 @@ def oracle_ops(world, op):
                 if got != sset({pr for (pr, _) in exp_pairs}): B('suppliers-by-product', 'node %d product %r suppliers %r, NBOM>0 gives %r' % (i, p1, got, sset({pr for (pr, _) in exp_pairs})))
                 gotb = sset(n.supplier_raw_material_pairs_by_product(product=p1, return_indices=True, network_BOM=False))
                 plist = sorted(set(P[i])) + ([None] if n.supply_type is not None else [])
-                expb = sset({(pr, p2) for pr in plist for p2 in (prods[pr] if pr is not None else [n._external_supplier_dummy_product.index]) if bomq(p1, p2) > 0})
+                expb = sset({(pr, p2) for pr in plist for p2 in (prods[pr] if pr is not None else [ext_idx(n.index)]) if bomq(p1, p2) > 0})
                 if gotb != expb: B('supplier-rm-pairs-BOM', 'node %d product %r BOM pairs %r, product BOM gives %r' % (i, p1, gotb, expb))
             rms = sset({p2 for (_, p2) in allpairs})
             got = sset(n.raw_materials_by_product(product='all', return_indices=True))
@@ -885,6 +912,234 @@ def oracle_levels(c, r):
 
 
 # =================================================================================================================
+# repeated builds from the same argument objects
+
+# serial_system / owmr_system / mwor_system take the node attributes as keyword arguments; objects (Policy, DemandSource,
+# DisruptionProcess) may be given as singleton, list or dict.  A script that loops over experiments builds several networks from
+# the SAME argument objects, changes a value in the arguments (or in the network it just built) and builds again.  The documented
+# placement must hold for every network built so far, at any later time: what was placed in network A is what the arguments said
+# when A was built, A's policies point to A's own nodes, and the caller's argument objects are as the caller left them.
+#
+# Not generated here (behaviour of the UNCHANGED library, reported to the lead, see the claim's note):
+#  * network_from_edges / single_stage_system place the caller's objects themselves (their docstring says the object is "filled
+#    into" the node), so the caller's Policy gets its .node set and two builds share objects;
+#  (a SINGLETON Policy / DisruptionProcess object for a system of >= 2 nodes used to be placed as one shared object whose .node
+#   was the node assigned last; repaired in /repo by fix 7f46636 and generated here since.)
+
+REB_KINDS = ('serial', 'owmr', 'mwor')
+
+
+def gen_rebuild(rng, maxn=4):
+    size = min(maxn, rng.choice([1, 2, 2, 3, 3, 4]))
+    nb = rng.choice([2, 2, 3])
+    if size == 1: kinds = ['serial'] * nb
+    elif rng.random() < 0.6: kinds = [rng.choice(REB_KINDS)] * nb
+    else: kinds = [rng.choice(REB_KINDS) for _ in range(nb)]
+    labels = rng.sample(range(10), size) if rng.random() < 0.5 else None
+    nodes = labels if labels is not None else list(range(size))
+    lists = None
+    if rng.random() < 0.5: lists = nodes[:]; rng.shuffle(lists)
+    def shape(val, kinds_=('none', 'scalar', 'list', 'dict'), none_p=0.2):
+        k = rng.choice(kinds_)
+        ent = lambda: None if rng.random() < none_p else val()
+        if k == 'none': return ['none']
+        if k == 'scalar': return ['scalar', val()]
+        if k == 'list': return ['list', [ent() for _ in nodes]]
+        return ['dict', [[i, ent()] for i in nodes if rng.random() < 0.85]]
+    pol = shape(lambda: rng.randint(1, 60))
+    ds = shape(lambda: rng.randint(5, 40), none_p=0.1)
+    dp = shape(lambda: rng.choice(['1/8', '1/4', '1/2'])) if rng.random() < 0.5 else ['none']
+    tweaks = [rng.choice(['none', 'args', 'net', 'both']) for _ in range(nb)]      # what the user changes after build j
+    return {'stream': 'rebuild', 'kinds': kinds, 'size': size, 'labels': labels, 'lists': lists, 'pol': pol, 'ds': ds, 'dp': dp, 'tweaks': tweaks}
+
+
+def enum_rebuild(rng):
+    """systematic part: every system builder x size x shape of the object arguments x kind of change between the two builds"""
+    out = []
+    for kind in REB_KINDS:
+        for size in (1, 2, 3):
+            if kind != 'serial' and size < 2: continue
+            for sh in ('scalar', 'list', 'dict'):
+                for tw in (['none', 'none'], ['none', 'net'], ['args', 'none'], ['net', 'none']):
+                    labels = rng.sample(range(10), size) if rng.random() < 0.5 else None
+                    nodes = labels if labels is not None else list(range(size))
+                    lists = None
+                    if sh == 'list' and rng.random() < 0.5: lists = nodes[:]; rng.shuffle(lists)
+                    def mk(val, sh_):
+                        if sh_ == 'scalar': return ['scalar', val()]
+                        if sh_ == 'list': return ['list', [val() for _ in nodes]]
+                        return ['dict', [[i, val()] for i in nodes]]
+                    out.append({'stream': 'rebuild', 'kinds': [kind, kind], 'size': size, 'labels': labels, 'lists': lists,
+                                'pol': mk(lambda: rng.randint(1, 60), sh),
+                                'ds': mk(lambda: rng.randint(5, 40), sh), 'dp': mk(lambda: rng.choice(['1/8', '1/4', '1/2']), sh) if rng.random() < 0.5 else ['none'],
+                                'tweaks': tw})
+    return out
+
+
+def reb_order(kind, c):
+    """node order of the system (source(s) first / warehouse first / retailer last), as passed to the builder"""
+    size = c['size']
+    if c['labels'] is not None: return list(c['labels'])
+    return list(range(size)) if kind in ('serial', 'owmr') else list(range(1, size)) + [0]
+
+
+def reb_objs(x):
+    if x is None: return []
+    if isinstance(x, list): return [v for v in x if v is not None]
+    if isinstance(x, dict): return [v for v in x.values() if v is not None]
+    return [x]
+
+
+def run_rebuild(c):
+    """builds the networks one after the other from ONE set of argument objects; after every build (before the user's change
+    that follows it) and once more at the end, every network built so far is read again.
+    returns ('ok', [reading after build 0, after build 1, ..., at the end], argument problems) | ('err', kind, msg)"""
+    from stockpyl import supply_chain_network as scn
+    from stockpyl.policy import Policy
+    from stockpyl.demand_source import DemandSource
+    from stockpyl.disruption_process import DisruptionProcess
+    kw = {}
+    if c['pol'][0] != 'none': kw['inventory_policy'] = py_kw(c['pol'], lambda v: Policy(type='BS', base_stock_level=v))
+    if c['ds'][0] != 'none': kw['demand_source'] = py_kw(c['ds'], lambda v: DemandSource(type='N', mean=v, standard_deviation=2))
+    else: kw.update(demand_type='N', mean=10, standard_deviation=2)
+    if c['dp'][0] != 'none': kw['disruption_process'] = py_kw(c['dp'], lambda v: DisruptionProcess(random_process_type='M', disruption_type='OP', disruption_probability=float(Fraction(v)), recovery_probability=0.5))
+    kw['local_holding_cost'] = 1
+    def finger():
+        """what the caller can see of the own argument objects"""
+        out = {}
+        for key in ('inventory_policy', 'demand_source', 'disruption_process'):
+            x = kw.get(key)
+            cont = ('list', len(x), [id(v) for v in x]) if isinstance(x, list) else ('dict', sorted(x.keys()), [id(x[k]) for k in sorted(x.keys())]) if isinstance(x, dict) else ('single', id(x))
+            vals = []
+            for o in reb_objs(x):
+                if key == 'inventory_policy': vals.append(('Policy', o.type, None if o.node is None else 'node %r' % o.node.index, o.product, o.base_stock_level))
+                elif key == 'demand_source': vals.append(('DemandSource', o.type, o.mean, o.standard_deviation))
+                else: vals.append(('DisruptionProcess', o.random_process_type, o.disruption_probability, o.recovery_probability, o.disrupted))
+            out[key] = (cont, vals)
+        return out
+    def read(net):
+        rows = []
+        for n in net.nodes:
+            pol = n.inventory_policy; ds = n.demand_source; dp = n.disruption_process
+            rows.append((n.index,
+                         None if pol is None else (pol.type, pol.base_stock_level, pol.node is n,
+                                                   None if pol.node is None else [pol.node.index, [j for j, m in enumerate(nets) if pol.node.network is m]]),
+                         None if ds is None else (ds.type, ds.mean),
+                         None if dp is None else (dp.random_process_type, None if dp.disruption_probability is None else F(dp.disruption_probability), bool(dp.disrupted)),
+                         n.network is net))
+        return ([n.index for n in net.nodes], sorted(raw_edges(net)), rows)
+    nets = []; readings = []; argbad = []
+    try:
+        for j, kind in enumerate(c['kinds']):
+            order = reb_order(kind, c)
+            f0 = finger()
+            if kind == 'serial': net = scn.serial_system(c['size'], node_order_in_system=order, node_order_in_lists=c['lists'], **kw)
+            elif kind == 'owmr': net = scn.owmr_system(c['size'] - 1, node_order_in_system=order, node_order_in_lists=c['lists'], **kw)
+            else: net = scn.mwor_system(c['size'] - 1, node_order_in_system=order, node_order_in_lists=c['lists'], **kw)
+            f1 = finger()
+            for key in f0:
+                if f0[key] != f1[key]: argbad.append((j, key, f0[key][1], f1[key][1]))
+            nets.append(net)
+            readings.append([read(m) for m in nets])
+            tw = c['tweaks'][j]
+            if tw in ('net', 'both'):
+                # the user changes the network just built (all its nodes alike)
+                for n in net.nodes:
+                    if n.demand_source is not None: n.demand_source.mean = 990 + j
+                    if n.inventory_policy is not None: n.inventory_policy.base_stock_level = 880 + j
+                    if n.disruption_process is not None: n.disruption_process.disruption_probability = 0.75; n.disruption_process.disrupted = True
+            if tw in ('args', 'both'):
+                # the user changes the own argument objects for the next experiment
+                for o in reb_objs(kw.get('inventory_policy')): o.base_stock_level += 100
+                for o in reb_objs(kw.get('demand_source')): o.mean += 100
+                for o in reb_objs(kw.get('disruption_process')): o.disruption_probability = o.disruption_probability / 2
+        readings.append([read(m) for m in nets])
+    except Exception as e:
+        return ('err', exc_kind(e), str(e)[:200])
+    return ('ok', readings, argbad)
+
+
+def oracle_rebuild(c, r):
+    """documented placement of every network, at every later time, computed from the case description alone"""
+    bad = []
+    _, readings, argbad = r
+    nodes = c['labels'] if c['labels'] is not None else list(range(c['size']))
+    fn = lambda j: c['kinds'][j] + '_system'
+    for (j, key, before, after) in argbad:
+        bad.append(('%s|argument-object-modified' % fn(j), 'build %d (%s): the caller\'s %s argument objects were %r before the call and are %r after it' % (j, fn(j), key, before, after)))
+    n_arg = 0       # number of times the caller changed the arguments so far
+    arg_at = []     # arg_at[j] = n_arg when network j was built
+    net_tw = []     # net_tw[j] = network j was changed by the user after it was built
+    nb = len(c['kinds'])
+    for t, reading in enumerate(readings):
+        if t < nb: arg_at.append(n_arg)
+        for j, (stored, edges, rows) in enumerate(reading):
+            kind = c['kinds'][j]; sys_ = reb_order(kind, c)
+            order = c['lists'] if c['lists'] is not None else sys_
+            tweaked = j < len(net_tw) and net_tw[j]
+            when = 'network %d (%s) read %s%s' % (j, fn(j), 'after build %d' % t if t < nb else 'at the end', '' if t == j else ' [changes by the user after the builds so far: %r]' % c['tweaks'][:t])
+            later = '' if t == j else '|after-later-build'
+            if kind == 'serial': exp_edges = [(sys_[k], sys_[k + 1]) for k in range(len(sys_) - 1)]; dem_nodes = {sys_[-1]}
+            elif kind == 'owmr': exp_edges = [(sys_[0], x) for x in sys_[1:]]; dem_nodes = set(sys_[1:])
+            else: exp_edges = [(x, sys_[-1]) for x in sys_[:-1]]; dem_nodes = {sys_[-1]}
+            if sorted(stored) != sorted(nodes) or [tuple(e) for e in edges] != sorted(exp_edges):
+                bad.append(('%s|topology%s' % (fn(j), later), '%s: nodes %r arcs %r, documented arcs %r' % (when, stored, edges, sorted(exp_edges)))); continue
+            for (i, pol, ds, dp, own) in rows:
+                if not own: bad.append(('%s|node-network-pointer%s' % (fn(j), later), '%s: node %d .network is not the network' % (when, i)))
+                # inventory policy
+                lvl = expected_entry(c['pol'], order, i)
+                want = (None, None) if lvl is None else ('BS', lvl + 100 * arg_at[j])
+                if tweaked: want = (want[0], 880 + j)
+                if pol is None: bad.append(('%s|inventory_policy-missing%s' % (fn(j), later), '%s: node %d has no inventory policy' % (when, i)))
+                else:
+                    if not pol[2]:
+                        bad.append(('%s|inventory_policy-node-pointer%s' % (fn(j), later), '%s: node %d: inventory_policy.node is %s, documented the node itself' % (when, i, 'None' if pol[3] is None else 'node %d of network(s) %r' % (pol[3][0], pol[3][1]))))
+                    if (pol[0], pol[1]) != want:
+                        bad.append(('%s|inventory_policy-placement%s' % (fn(j), later), '%s: node %d has policy (type, base-stock level) %r, documented %r (shape %s)' % (when, i, (pol[0], pol[1]), want, c['pol'][0])))
+                # demand
+                if c['ds'][0] == 'none': m = 10 if i in dem_nodes else None
+                else:
+                    m = expected_entry(c['ds'], order, i) if i in dem_nodes else None
+                    if m is not None: m += 100 * arg_at[j]
+                wantd = (None if m is None else 'N', m)
+                if tweaked: wantd = (wantd[0], 990 + j)
+                if ds is None or (ds[0], ds[1]) != wantd:
+                    bad.append(('%s|demand-placement%s' % (fn(j), later), '%s: node %d has demand (type, mean) %r, documented %r (shape %s)' % (when, i, ds, wantd, c['ds'][0])))
+                # disruption process
+                pr = expected_entry(c['dp'], order, i)
+                wantp = (None, None, False) if pr is None else ('M', Fraction(pr) / 2 ** arg_at[j], False)
+                if tweaked: wantp = (wantp[0], Fraction(3, 4), True)
+                if dp is None or tuple(dp) != wantp:
+                    bad.append(('%s|disruption_process-placement%s' % (fn(j), later), '%s: node %d has disruption process (type, probability, disrupted) %r, documented %r (shape %s)' % (when, i, dp, wantp, c['dp'][0])))
+        if t < nb:
+            tw = c['tweaks'][t]
+            net_tw.append(tw in ('net', 'both'))
+            if tw in ('args', 'both'): n_arg += 1
+    return bad
+
+
+def check_rebuild_case(chk, c, im):
+    chk.count('rebuild=%s' % '+'.join(c['kinds'])); chk.count('rebuild_size=%d' % c['size'])
+    for a in ('pol', 'ds', 'dp'): chk.count('rebuild_shape_%s=%s' % (a, c[a][0]))
+    for tw in c['tweaks'][:-1]: chk.count('rebuild_change_between_builds=%s' % tw)
+    if im[0] != 'ok':
+        chk.fail('%s|repeated-build-raises-%s' % (c['kinds'][0] + '_system', im[1]), 'valid arguments raise %s: %s' % (im[1], im[2]), c)
+        chk.case(c, False); return
+    seen = set()
+    for sig, what in oracle_rebuild(c, im):
+        if sig in seen: continue          # one report per signature and case
+        seen.add(sig); chk.fail(sig, what, c)
+    chk.case(c, c['size'] >= 2, key=json.dumps(jsonable({k: v for k, v in c.items() if k != 'stream'}), sort_keys=True))
+
+
+def explore_rebuild(chk, n, maxn=4):
+    cases = enum_rebuild(chk.rng) + [gen_rebuild(chk.rng, maxn) for _ in range(n)]
+    # smallest first, so that the first failing input recorded for a signature is a small one
+    for c in sorted(cases, key=lambda c: (c['size'], len(c['kinds']))):
+        check_rebuild_case(chk, c, run_rebuild(c))
+
+
+# =================================================================================================================
 # exploration
 
 def raw_edges(net):
@@ -1250,19 +1505,21 @@ def run(chk):
                    'level conversions: exact rationals in the theorems; generated levels are multiples of 1/4 so the implementation computes exactly']
     chk.proof()
     if chk.tier == 'quick':
-        n_ops, maxlen, n_b, sizes, n_l, maxl = 150, 30, 500, [1, 2, 3, 4, 5], 300, 7
+        n_ops, maxlen, n_b, sizes, n_l, maxl, n_r = 150, 30, 500, [1, 2, 3, 4, 5], 300, 7, 300
     else:
-        n_ops, maxlen, n_b, sizes, n_l, maxl = 2500, 30, 6000, [1, 2, 3, 4, 5], 3000, 9
+        n_ops, maxlen, n_b, sizes, n_l, maxl, n_r = 2500, 30, 6000, [1, 2, 3, 4, 5], 3000, 9, 3000
     explore_ops(chk, n_ops, maxlen)
     explore_builders(chk, n_b, sizes)
     if chk.tier != 'quick':
         explore_builders(chk, 0, [1, 2, 3, 4, 5]); explore_builders(chk, 0, [1, 2, 3, 4, 5])     # two more systematic sweeps with fresh values
     explore_levels(chk, n_l, maxl)
+    explore_rebuild(chk, n_r)
     if (chk.broken or chk.mismatches) and not chk.fails:
         # directed search for a failing input: larger budget, oracles only
         explore_ops(chk, 8 * n_ops if chk.tier == 'quick' else 2 * n_ops, maxlen, do_model=False)
         explore_builders(chk, 6 * n_b if chk.tier == 'quick' else n_b, sizes, do_model=False)
         explore_levels(chk, 6 * n_l if chk.tier == 'quick' else n_l, maxl, do_model=False)
+        explore_rebuild(chk, 6 * n_r if chk.tier == 'quick' else n_r)
 
 
 def replay(chk, rp):
@@ -1284,5 +1541,10 @@ def replay(chk, rp):
         im = run_impl_levels(c)
         print('implementation:', jsonable(im))
         check_levels_case(chk, c, im, None, do_model=False)
+        return
+    elif st == 'rebuild':
+        im = run_rebuild(c)
+        print('implementation:', jsonable(im))
+        check_rebuild_case(chk, c, im)
         return
     chk.case(c)
